@@ -75,6 +75,11 @@ func gen(rng *rand.Rand, tier core.Tier, emit core.Emit) {
 			default:
 				uc = "pop|3|fail"
 			}
+			if rng.Intn(6) == 0 {
+				// another master node with a clock a few seconds ahead refreshed the record: its refresh time lies in this
+				// node's future; the next heartbeat handled here is refreshed at THIS node's now all the same
+				uc = fmt.Sprintf("call|update!%s/10481/%d/%d/%d!over", addr, 2|4|rng.Intn(2)*64, 50, world.Epoch.UnixNano()+int64(1+rng.Intn(20))*256000000000)
+			}
 			ops = append(ops, []string{"uc", uc})
 			if rng.Intn(2) == 0 {
 				ops = append(ops, reputil.Adv(rng))
